@@ -32,13 +32,14 @@ Paras == {TElem("p", a, <<TText(s)>>) : a \in Attrs, s \in {"a", ")", "Tree("}} 
 Trees == {[t |-> "tree", r |-> TElem("doc", <<>>, <<p>>)] : p \in Paras}
          \cup {[t |-> "tree", r |-> TElem("doc", <<>>, <<p, TElem("p", <<>>, <<TText("z")>>)>>)] : p \in Paras}
 
-Counters == {[t |-> "cnt", v |-> i] : i \in Ints}
+\* "dcnt": a dedup counter (HyperLogLog) that has counted v distinct actors - its registers are its state
+Counters == {[t |-> "cnt", v |-> i] : i \in Ints} \cup {[t |-> "dcnt", v |-> i] : i \in {0, 1, 3}}
 
 V0 == Prims \cup Texts \cup Trees \cup Counters
 
 Obj1(k, v) == [t |-> "obj", m |-> <<<<k, v>>>>]
 \* containers of depth 1 (a sample of the string-like atoms inside them keeps the set small)
-Inner == {Str(")"), Str("Int("), Str("a"), [t |-> "int", v |-> 7], [t |-> "cnt", v |-> -1],
+Inner == {Str(")"), Str("Int("), Str("a"), [t |-> "int", v |-> 7], [t |-> "cnt", v |-> -1], [t |-> "dcnt", v |-> 3],
           [t |-> "text", n |-> <<[val |-> ")", at |-> <<>>]>>]}
 V1 == V0 \cup {Obj1(k, v) : k \in Keys, v \in Inner} \cup {[t |-> "arr", e |-> <<>>]}
          \cup {[t |-> "arr", e |-> <<v>>] : v \in Inner} \cup {[t |-> "arr", e |-> <<v, w>>] : v \in {Str(")")}, w \in Inner}
